@@ -303,6 +303,12 @@ func (gme *GCPMultiEndpoint) UpdateMultiEndpoints(meOpts *GCPMultiEndpointOption
 	if _, ok := meOpts.MultiEndpoints[meOpts.Default]; !ok {
 		return fmt.Errorf("default MultiEndpoint %q missing options", meOpts.Default)
 	}
+	// Reject invalid options before changing anything.
+	for name, meo := range meOpts.MultiEndpoints {
+		if meo == nil || len(meo.Endpoints) == 0 {
+			return fmt.Errorf("MultiEndpoint %q has no endpoints", name)
+		}
+	}
 
 	validPools := make(map[string]bool)
 	for _, meo := range meOpts.MultiEndpoints {
@@ -330,7 +336,9 @@ func (gme *GCPMultiEndpoint) UpdateMultiEndpoints(meOpts *GCPMultiEndpointOption
 	for name, meo := range meOpts.MultiEndpoints {
 		if me, ok := gme.mes[name]; ok {
 			// Updating existing MultiEndpoint.
-			me.SetEndpoints(meo.Endpoints)
+			if err := me.SetEndpoints(meo.Endpoints); err != nil {
+				return err
+			}
 			continue
 		}
 
